@@ -1864,6 +1864,10 @@ class Evaluator:
             if self.runtime is not None:
                 self._e_Call(call)
                 return
+            if FALLBACK_RESOLVER is not None:
+                found, _val = FALLBACK_RESOLVER(self, call, name)      # a helper of the package called for its effects
+                if found:
+                    return
             key = self._alias_key(call.func.value)
             args = tuple(self.ev(a) for a in call.args)
             self.effects.append(Effect(key, "call:" + call.func.attr, args, st))
